@@ -29,6 +29,9 @@ type Case struct {
 	Icpt  bool     `json:"icpt"` // register the word / digit interceptors before any Add
 	Steps []Step   `json:"steps"`
 	Hosts []string `json:"hosts"`
+	// Init: that many leading Add steps are given to NewHosts as its initial domains instead (when no interceptor has
+	// to be registered first); if the constructor refuses the list, the steps are replayed as plain Adds
+	Init int `json:"init,omitempty"`
 }
 
 var (
@@ -216,6 +219,9 @@ func gen(t *rapid.T) Case {
 		}
 		c.Hosts = append(c.Hosts, h)
 	}
+	if rapid.IntRange(0, 3).Draw(t, "init") == 0 {
+		c.Init = rapid.IntRange(1, 6).Draw(t, "initN")
+	}
 	return c
 }
 
@@ -277,6 +283,20 @@ func check(c Case, st *rig.Stats) error {
 		ic[k] = v
 	}
 	hs := mux.NewHosts(false)
+	initDone := 0
+	if !c.Icpt && c.Init > 0 {
+		var doms []string
+		for _, s := range c.Steps {
+			if s.Reg || s.Del || len(doms) == c.Init {
+				break
+			}
+			doms = append(doms, s.Domain)
+		}
+		var h2 *mux.Hosts
+		if _, panicked := rig.Try(func() { h2 = mux.NewHosts(false, doms...) }); !panicked && len(doms) > 0 {
+			hs, initDone = h2, len(doms)
+		}
+	}
 	if c.Icpt {
 		hs.RegisterInterceptor(pat.Funcs["word"], "word")
 		hs.RegisterInterceptor(pat.Funcs["digit"], "digit")
@@ -334,7 +354,12 @@ func check(c Case, st *rig.Stats) error {
 			}
 		} else {
 			p, perr := pat.Parse(lower, ic)
-			_, panicked := rig.Try(func() { hs.Add(s.Domain) })
+			panicked := false
+			if i < initDone {
+				classes = append(classes, "initial-domain-of-NewHosts")
+			} else {
+				_, panicked = rig.Try(func() { hs.Add(s.Domain) })
+			}
 			if !panicked && perr == nil {
 				if live[lower] == nil {
 					order = append(order, lower)
@@ -344,6 +369,9 @@ func check(c Case, st *rig.Stats) error {
 			if panicked && live[lower] != nil {
 				classes = append(classes, "add-duplicate-rejected")
 			}
+		}
+		if i < initDone-1 {
+			continue // the Hosts already holds all its initial domains: judged once the model holds them too
 		}
 		ll := liveList()
 		// witness checks (always)
